@@ -105,8 +105,14 @@ def sample_cfg(rng, variant, small=True, default_regs=None, shape=None):
     if shape == "far":                     # elements farther than 2 MiB from their call sites
         gap = rng.choice([0x200000, 0x300000]) + need
         cfg["jit_nb_methods"], cfg["jit_size"] = nb, nb * 6
+    if shape == "stub_boundary":           # some interpreter call stub starts 0x800 / 0x804 (mod 0x1000) before
+        nb = rng.choice([3, 8, 20, 40])    # the JIT start: the low/high split of its offsets is at its boundary
+        cfg["jit_nb_methods"], cfg["jit_size"] = nb, nb * rng.choice([3, 7, 12])
+        cfg["interpreter_start_address"] = rng.choice([0x0, 0x1000, 0x4000])
+        gap = 0x800 + 48 + 4 * rng.randrange(0, 4 * nb) + rng.choice([0, 0x1000])
+        cfg["pics_ratio"] = rng.choice([0.0, 0.0, 0.3])
     cfg["jit_start_address"] = cfg["interpreter_start_address"] + gap
-    if rng.random() < .15:          # unaligned requests: the generators align both down to 4
+    if rng.random() < .15 and shape != "stub_boundary":   # unaligned requests: the generators align both down to 4
         cfg["interpreter_start_address"] += rng.choice([1, 2, 3])
         cfg["jit_start_address"] += rng.choice([4, 5, 6, 7])
     if variant in ("rimiss", "rimifull") and rng.random() < .3:
